@@ -446,7 +446,8 @@ def _bytes_from_iter(E, st, items):
         if ok is None:
             return outs
         cur = ok
-        if not isinstance(x, int) and z3.is_app(zx) and zx.num_args() > 0 and zx.decl().kind() != z3.Z3_OP_UNINTERPRETED:
+        if E.options.get('int_bytes') and not isinstance(x, int) and z3.is_app(zx) and zx.num_args() > 0 and \
+                zx.decl().kind() != z3.Z3_OP_UNINTERPRETED:
             # name a compound byte value: int->bitvector conversion of an arithmetic term is expensive for z3, while
             # equal terms then meet as equal variables (exact: v == the term, on this path)
             names = E.__dict__.setdefault('_byte_names', {})
@@ -459,8 +460,8 @@ def _bytes_from_iter(E, st, items):
         if not isinstance(x, int):
             # this byte term only exists on paths below `ok` (0 <= zx <= 255): byte_int() may read it back as zx
             E.__dict__.setdefault('_ranged_bytes', set()).add(zx.get_id())
-        if not isinstance(x, int) and not E.options.get('int_bytes'):
-            # ground instance of "int -> byte -> int is the identity on 0..255" (z3 is slow to find it by bit-blasting)
+        if not isinstance(x, int) and E.options.get('byte_roundtrip'):
+            # opt-in ground instance of "int -> byte -> int is the identity on 0..255"
             cur.fact(z3.Implies(z3.And(zx >= 0, zx <= 255), z3.BV2Int(z3.Int2BV(zx, 8)) == zx))
     if all(isinstance(x, int) for x in items):
         outs.append(('val', cur, bytes(items)))
